@@ -20,8 +20,9 @@ use ntp_proto::{NoCipher, NtpPacket, PollInterval};
 use ph::Ef;
 use std::borrow::Cow;
 
-const UID: usize = 32;
-const COOKIE: usize = 16;
+/// sizes of the real client request (32-byte unique id) / of the smallest tractable images
+const UID32: usize = 32;
+const COOKIE16: usize = 16;
 const B: usize = 152;
 /// header byte 0 of the response: leap 3 (unknown), version 4, mode 4 (server)
 const RESP_B0: u8 = 0xE4;
@@ -38,17 +39,17 @@ struct Layout {
     total: usize,
 }
 
-const REQ: Layout = {
-    // header, unique id field (4+32), cookie field (4+16), authenticator: 4 + 4 + nonce 16 + (tag 16)
-    let nts = 48 + 4 + UID + 4 + COOKIE;
+const fn req_layout(uid: usize, cookie: usize) -> Layout {
+    // header, unique id field (4+uid), cookie field (4+cookie), authenticator: 4 + 4 + nonce 16 + (tag 16)
+    let nts = 48 + 4 + uid + 4 + cookie;
     Layout { nts, nonce: nts + 8, ct: nts + 8 + NONCE_LEN, end: nts + 8 + NONCE_LEN + TAG_LEN, total: nts + 8 + NONCE_LEN + TAG_LEN + 4 }
-};
-const RESP: Layout = {
-    // header, unique id field (4+32), authenticator: 4 + 4 + nonce 16 + (cookie field 4+16, tag 16)
-    let nts = 48 + 4 + UID;
-    let ct_len = 4 + COOKIE + TAG_LEN;
+}
+const fn resp_layout(uid: usize, cookie: usize) -> Layout {
+    // header, unique id field (4+uid), authenticator: 4 + 4 + nonce 16 + (cookie field 4+cookie, tag 16)
+    let nts = 48 + 4 + uid;
+    let ct_len = 4 + cookie + TAG_LEN;
     Layout { nts, nonce: nts + 8, ct: nts + 8 + NONCE_LEN, end: nts + 8 + NONCE_LEN + ct_len, total: nts + 8 + NONCE_LEN + ct_len + 4 }
-};
+}
 
 /// The valid request image: header (byte 0 = 0x23: leap 0, version 4, client; everything else
 /// arbitrary), unique id field, cookie field (type/length words as RFC 7822/8915 lay them out),
@@ -57,54 +58,56 @@ const RESP: Layout = {
 /// `c25_req_real_serializer` shows that `NtpPacket::serialize` of `nts_poll_message` produces
 /// exactly this image (the generic serializer is too expensive to run inside every tamper harness:
 /// its field vectors live on the heap, where CBMC loses all constants).
-fn assemble_request(hdr: &[u8; 48], uid: &[u8; UID], cookie: &[u8; COOKIE], trailer: [u8; 4]) -> [u8; B] {
+fn assemble_request<const UID: usize, const COOKIE: usize>(hdr: &[u8; 48], uid: &[u8; UID], cookie: &[u8; COOKIE], trailer: [u8; 4]) -> [u8; B] {
+    let lay = req_layout(UID, COOKIE);
     let mut out = [0u8; B];
     out[..48].copy_from_slice(hdr);
     out[52..52 + UID].copy_from_slice(uid);
-    out[88..88 + COOKIE].copy_from_slice(cookie);
-    out[REQ.end..REQ.end + 4].copy_from_slice(&trailer);
+    out[56 + UID..56 + UID + COOKIE].copy_from_slice(cookie);
+    out[lay.end..lay.end + 4].copy_from_slice(&trailer);
     out[0] = 0x23;
     pin_ef(&mut out, 48, T_UID, (4 + UID) as u16);
-    pin_ef(&mut out, 84, T_COOKIE, (4 + COOKIE) as u16);
+    pin_ef(&mut out, 52 + UID, T_COOKIE, (4 + COOKIE) as u16);
     {
-        let mut cur = std::io::Cursor::new(&mut out[..REQ.end]);
-        cur.set_position(REQ.nts as u64);
+        let mut cur = std::io::Cursor::new(&mut out[..lay.end]);
+        cur.set_position(lay.nts as u64);
         let r = ntp_proto::verif::packet::extension_fields::encode_encrypted_hook(&mut cur, &[], &ModelCipher::new(0), ntp_proto::ExtensionHeaderVersion::V4);
         assert!(r.is_ok(), "authenticator encoded");
-        assert!(cur.position() as usize == REQ.end, "authenticator has the RFC 8915 size");
+        assert!(cur.position() as usize == lay.end, "authenticator has the RFC 8915 size");
     }
     // the authenticator as the RFC lays it out (independent check of the encoder)
-    assert!(get16(&out, REQ.nts) == T_NTS, "authenticator type");
-    assert!(get16(&out, REQ.nts + 2) as usize == REQ.end - REQ.nts, "authenticator length");
-    assert!(get16(&out, REQ.nts + 4) as usize == NONCE_LEN, "nonce length word");
-    assert!(get16(&out, REQ.nts + 6) as usize == TAG_LEN, "ciphertext length word");
+    assert!(get16(&out, lay.nts) == T_NTS, "authenticator type");
+    assert!(get16(&out, lay.nts + 2) as usize == lay.end - lay.nts, "authenticator length");
+    assert!(get16(&out, lay.nts + 4) as usize == NONCE_LEN, "nonce length word");
+    assert!(get16(&out, lay.nts + 6) as usize == TAG_LEN, "ciphertext length word");
     out
 }
 
 /// The valid response image: header (byte 0 = 0xE4: leap 3, version 4, server), unique id field,
 /// authenticator written by the real `encode_encrypted` over one new cookie.
-fn assemble_response(hdr: &[u8; 48], uid: &[u8; UID], cookie: &[u8; COOKIE], trailer: [u8; 4]) -> [u8; B] {
+fn assemble_response<const UID: usize, const COOKIE: usize>(hdr: &[u8; 48], uid: &[u8; UID], cookie: &[u8; COOKIE], trailer: [u8; 4]) -> [u8; B] {
+    let lay = resp_layout(UID, COOKIE);
     let mut out = [0u8; B];
     out[..48].copy_from_slice(hdr);
     out[52..52 + UID].copy_from_slice(uid);
-    out[RESP.end..RESP.end + 4].copy_from_slice(&trailer);
+    out[lay.end..lay.end + 4].copy_from_slice(&trailer);
     out[0] = RESP_B0;
     pin_ef(&mut out, 48, T_UID, (4 + UID) as u16);
     {
         let enc = [Ef::NtsCookie(Cow::Borrowed(&cookie[..]))];
-        let mut cur = std::io::Cursor::new(&mut out[..RESP.end]);
-        cur.set_position(RESP.nts as u64);
+        let mut cur = std::io::Cursor::new(&mut out[..lay.end]);
+        cur.set_position(lay.nts as u64);
         let r = ntp_proto::verif::packet::extension_fields::encode_encrypted_hook(&mut cur, &enc, &ModelCipher::new(1), ntp_proto::ExtensionHeaderVersion::V4);
         assert!(r.is_ok(), "authenticator encoded");
-        assert!(cur.position() as usize == RESP.end, "authenticator has the RFC 8915 size");
+        assert!(cur.position() as usize == lay.end, "authenticator has the RFC 8915 size");
         std::mem::forget(enc);
     }
-    assert!(get16(&out, RESP.nts) == T_NTS, "authenticator type");
-    assert!(get16(&out, RESP.nts + 2) as usize == RESP.end - RESP.nts, "authenticator length");
-    assert!(get16(&out, RESP.nts + 4) as usize == NONCE_LEN, "nonce length word");
-    assert!(get16(&out, RESP.nts + 6) as usize == 4 + COOKIE + TAG_LEN, "ciphertext length word");
+    assert!(get16(&out, lay.nts) == T_NTS, "authenticator type");
+    assert!(get16(&out, lay.nts + 2) as usize == lay.end - lay.nts, "authenticator length");
+    assert!(get16(&out, lay.nts + 4) as usize == NONCE_LEN, "nonce length word");
+    assert!(get16(&out, lay.nts + 6) as usize == 4 + COOKIE + TAG_LEN, "ciphertext length word");
     // the model leaves the plaintext in place: the encrypted cookie field
-    assert!(get16(&out, RESP.ct) == T_COOKIE && get16(&out, RESP.ct + 2) as usize == 4 + COOKIE, "encrypted cookie field");
+    assert!(get16(&out, lay.ct) == T_COOKIE && get16(&out, lay.ct + 2) as usize == 4 + COOKIE, "encrypted cookie field");
     out
 }
 
@@ -115,9 +118,9 @@ fn lists_empty(p: &NtpPacket<'_>) -> bool {
 /// What the untampered packet authenticates / encrypts, by construction (not taken from the
 /// decoder): request = [unique id, cookie] / []; response = [unique id] / [new cookie].
 struct Expected<'a> {
-    uid: &'a [u8; UID],
+    uid: &'a [u8],
     /// request: the cookie is an authenticated field; response: it is the encrypted field
-    cookie: &'a [u8; COOKIE],
+    cookie: &'a [u8],
     is_request: bool,
 }
 impl Expected<'_> {
@@ -216,8 +219,8 @@ pharness! {
     fn c25_untampered() {
         symbolic_model_randomness();
         let hdr: [u8; 48] = kani::any();
-        let uid: [u8; UID] = kani::any();
-        let cookie: [u8; COOKIE] = kani::any();
+        let uid: [u8; U] = kani::any();
+        let cookie: [u8; K] = kani::any();
         let trailer: [u8; 4] = kani::any();
         let is_request: bool = kani::any();
         let (img, l, key) = if is_request {
@@ -240,11 +243,18 @@ pharness! {
     }
 }
 
+/// Tamper harness images: 8-byte unique id and 8-byte cookie (116 bytes). With the sizes of the
+/// real client (32/16: 148 bytes) the solver runs out of memory at 12 GB (measured); the decoder
+/// treats both field bodies as opaque, so the authenticated-region boundary is the same question.
+const U: usize = 8;
+const K: usize = 8;
+const REQ: Layout = req_layout(U, K);
+const RESP: Layout = resp_layout(U, K);
 fn request(lo: usize, hi: usize) -> u8 {
     symbolic_model_randomness();
     let hdr: [u8; 48] = kani::any();
-    let uid: [u8; UID] = kani::any();
-    let cookie: [u8; COOKIE] = kani::any();
+    let uid: [u8; U] = kani::any();
+    let cookie: [u8; K] = kani::any();
     let trailer: [u8; 4] = kani::any();
     let orig = assemble_request(&hdr, &uid, &cookie, trailer);
     tamper(&orig, REQ, 0, lo, hi, &Expected { uid: &uid, cookie: &cookie, is_request: true })
@@ -253,8 +263,8 @@ fn request(lo: usize, hi: usize) -> u8 {
 fn response(lo: usize, hi: usize) -> u8 {
     symbolic_model_randomness();
     let hdr: [u8; 48] = kani::any();
-    let uid: [u8; UID] = kani::any();
-    let cookie: [u8; COOKIE] = kani::any();
+    let uid: [u8; U] = kani::any();
+    let cookie: [u8; K] = kani::any();
     let trailer: [u8; 4] = kani::any();
     let orig = assemble_response(&hdr, &uid, &cookie, trailer);
     tamper(&orig, RESP, 1, lo, hi, &Expected { uid: &uid, cookie: &cookie, is_request: false })
@@ -267,7 +277,8 @@ pharness! {
     fn c25_req_real_serializer() {
         stubs::symbolic_rng();
         symbolic_model_randomness();
-        let cookie: [u8; COOKIE] = kani::any();
+        const REQ: Layout = req_layout(UID32, COOKIE16);
+        let cookie: [u8; COOKIE16] = kani::any();
         let mut real = [0u8; B];
         let (p, id) = NtpPacket::nts_poll_message(&cookie, 1, PollInterval::default());
         let n = encode(&p, &ModelCipher::new(0), &mut real);
@@ -293,9 +304,10 @@ pharness! {
     #[kani::unwind(10)]
     fn c25_resp_real_serializer() {
         symbolic_model_randomness();
+        const RESP: Layout = resp_layout(UID32, COOKIE16);
         let mut hdr: [u8; 48] = kani::any();
-        let uid: [u8; UID] = kani::any();
-        let cookie: [u8; COOKIE] = kani::any();
+        let uid: [u8; UID32] = kani::any();
+        let cookie: [u8; COOKIE16] = kani::any();
         hdr[0] = RESP_B0;
         let header = match NtpPacket::deserialize(&hdr[..], &NoCipher) {
             Ok((p, _)) => p.header(),
@@ -324,7 +336,7 @@ pharness! {
 
 // Global unwind bound: 5 for regions that cannot change a type/length word (field loop: 3 fields +
 // exit; the decrypted plaintext lives on the heap, its field loop runs to the bound); 40 where a type word may turn a 32-byte body into a placeholder
-// (33 iterations of its all-zero check).
+// (9 iterations of its all-zero check on an 8-byte body): 16.
 macro_rules! tamper_harness {
     ($name:ident, $f:ident, $lo:expr, $hi:expr, [$($code:expr => $msg:expr),*]) => {
         tamper_harness!($name, $f, $lo, $hi, 5, [$($code => $msg),*]);
@@ -342,29 +354,29 @@ macro_rules! tamper_harness {
 const REJ: u8 = 0;
 const DEC: u8 = 1;
 const ACC: u8 = 2;
-// request: 48 header | 36 uid | 20 cookie | authenticator 8+16+16 | 4 trailer
-tamper_harness!(c25_req_header, request, 0, 48, 40, [DEC => "detected by the AEAD", REJ => "framing broken (version bits)"]);
-tamper_harness!(c25_req_uid_hdr, request, 48, 52, 40, [DEC => "detected by the AEAD", REJ => "framing broken"]);
-tamper_harness!(c25_req_uid_body, request, 52, 84, [DEC => "detected by the AEAD"]);
-tamper_harness!(c25_req_cookie_hdr, request, 84, 88, 40, [DEC => "detected by the AEAD", REJ => "framing broken"]);
-tamper_harness!(c25_req_cookie_body, request, 88, 104, [DEC => "detected by the AEAD"]);
-tamper_harness!(c25_req_auth_words, request, 104, 112, 40, [DEC => "decrypt refused or original triple", REJ => "framing broken", ACC => "no longer an NTS field: accepted without any authenticated content"]);
-tamper_harness!(c25_req_auth_body, request, 112, 144, [DEC => "detected by the AEAD"]);
-tamper_harness!(c25_req_trailer, request, 144, 148, [DEC => "asked about the original triple (refusing probe cipher)"]);
-// response: 48 header | 36 uid | authenticator 8+16+(20+16) | 4 trailer
-tamper_harness!(c25_resp_header, response, 0, 48, 40, [DEC => "detected by the AEAD", REJ => "framing broken (version bits)"]);
-tamper_harness!(c25_resp_uid_hdr, response, 48, 52, 40, [DEC => "detected by the AEAD", REJ => "framing broken"]);
-tamper_harness!(c25_resp_uid_body, response, 52, 84, [DEC => "detected by the AEAD"]);
-tamper_harness!(c25_resp_auth_words, response, 84, 92, 40, [DEC => "decrypt refused or original triple", REJ => "framing broken", ACC => "no longer an NTS field: accepted without any authenticated content"]);
-tamper_harness!(c25_resp_auth_body, response, 92, 144, [DEC => "detected by the AEAD"]);
-tamper_harness!(c25_resp_trailer, response, 144, 148, [DEC => "asked about the original triple (refusing probe cipher)"]);
+// request (U=8,K=8): 48 header | 12 uid | 12 cookie | authenticator 8+16+16 | 4 trailer
+tamper_harness!(c25_req_header, request, 0, 48, 16, [DEC => "detected by the AEAD", REJ => "framing broken (version bits)"]);
+tamper_harness!(c25_req_uid_hdr, request, 48, 52, 16, [DEC => "detected by the AEAD", REJ => "framing broken"]);
+tamper_harness!(c25_req_uid_body, request, 52, 60, [DEC => "detected by the AEAD"]);
+tamper_harness!(c25_req_cookie_hdr, request, 60, 64, 16, [DEC => "detected by the AEAD", REJ => "framing broken"]);
+tamper_harness!(c25_req_cookie_body, request, 64, 72, [DEC => "detected by the AEAD"]);
+tamper_harness!(c25_req_auth_words, request, 72, 80, 52, [DEC => "decrypt refused or original triple", REJ => "framing broken", ACC => "no longer an NTS field: accepted without any authenticated content"]);
+tamper_harness!(c25_req_auth_body, request, 80, 112, [DEC => "detected by the AEAD"]);
+tamper_harness!(c25_req_trailer, request, 112, 116, [DEC => "asked about the original triple (refusing probe cipher)"]);
+// response (U=8,K=8): 48 header | 12 uid | authenticator 8+16+(12+16) | 4 trailer
+tamper_harness!(c25_resp_header, response, 0, 48, 16, [DEC => "detected by the AEAD", REJ => "framing broken (version bits)"]);
+tamper_harness!(c25_resp_uid_hdr, response, 48, 52, 16, [DEC => "detected by the AEAD", REJ => "framing broken"]);
+tamper_harness!(c25_resp_uid_body, response, 52, 60, [DEC => "detected by the AEAD"]);
+tamper_harness!(c25_resp_auth_words, response, 60, 68, 52, [DEC => "decrypt refused or original triple", REJ => "framing broken", ACC => "no longer an NTS field: accepted without any authenticated content"]);
+tamper_harness!(c25_resp_auth_body, response, 68, 112, [DEC => "detected by the AEAD"]);
+tamper_harness!(c25_resp_trailer, response, 112, 116, [DEC => "asked about the original triple (refusing probe cipher)"]);
 pharness! {
     #[kani::unwind(5)]
     fn c25_req_trailer_accept() {
         symbolic_model_randomness();
         let hdr: [u8; 48] = kani::any();
-        let uid: [u8; UID] = kani::any();
-        let cookie: [u8; COOKIE] = kani::any();
+        let uid: [u8; U] = kani::any();
+        let cookie: [u8; K] = kani::any();
         let trailer: [u8; 4] = kani::any();
         let orig = assemble_request(&hdr, &uid, &cookie, trailer);
         let code = tamper_accepting(&orig, REQ, 0, &Expected { uid: &uid, cookie: &cookie, is_request: true });
@@ -376,8 +388,8 @@ pharness! {
     fn c25_resp_trailer_accept() {
         symbolic_model_randomness();
         let hdr: [u8; 48] = kani::any();
-        let uid: [u8; UID] = kani::any();
-        let cookie: [u8; COOKIE] = kani::any();
+        let uid: [u8; U] = kani::any();
+        let cookie: [u8; K] = kani::any();
         let trailer: [u8; 4] = kani::any();
         let orig = assemble_response(&hdr, &uid, &cookie, trailer);
         let code = tamper_accepting(&orig, RESP, 1, &Expected { uid: &uid, cookie: &cookie, is_request: false });
